@@ -263,7 +263,8 @@ Section Thms.
         intros H. apply IH in H. apply consume_contiguous in Hc. cbn [rev app] in Hc.
         rewrite rev_app_distr, rev_involutive in H. rewrite <- app_assoc in H.
         rewrite <- H. now rewrite Hc.
-      + intros H. apply IH in H. cbn [rev] in H. now rewrite <- app_assoc in H.
+      + destruct (is_closer (ty t) && negb (ty t =? GT)); [discriminate|].
+        intros H. apply IH in H. cbn [rev] in H. now rewrite <- app_assoc in H.
   Qed.
 
   (* C14: nothing dropped, duplicated, reordered or taken from outside *)
@@ -282,7 +283,7 @@ Section Thms.
       + intros H; inversion H; subst. right. now exists t, l.
       + destruct (opener_of (ty t)) as [c|].
         * destruct (consume ty [c] [t] l) as [[grp r']| | |]; try discriminate. apply IH.
-        * apply IH.
+        * destruct (is_closer (ty t) && negb (ty t =? GT)); [discriminate|]. apply IH.
   Qed.
 
   (* token-level expressions: plain tokens, strict groups over SN, angle
@@ -328,6 +329,7 @@ Section Thms.
   Inductive Expr (terms : list N) : list T -> Prop :=
   | Ex_nil : Expr terms []
   | Ex_plain t l : memN (ty t) terms = false -> opener_of (ty t) = None ->
+      is_closer (ty t) && negb (ty t =? GT) = false ->      (* no stray closing bracket; a '>' may be an operator *)
       Expr terms l -> Expr terms (t :: l)
   | Ex_group a b c l1 l2 : memN (ty a) terms = false ->
       opener_of (ty a) = Some c -> c <> GT -> ty b = c ->
@@ -343,7 +345,7 @@ Section Thms.
     forall fuel acc rest, stops_at terms rest -> (length (e ++ rest) <= fuel)%nat ->
       value_until ty fuel terms acc (e ++ rest) = Ok (rev acc ++ e, rest).
   Proof.
-    induction 1 as [|t l Hm Hop Hl IH|a b c l1 l2 Hm Hop Hc Hb H1 H2 IH2
+    induction 1 as [|t l Hm Hop Hnc Hl IH|a b c l1 l2 Hm Hop Hc Hb H1 H2 IH2
                     |a b l1 l2 Hm Hop Hb H1 H2 IH2];
       intros fuel acc rest Hstop Hf.
     - cbn [app]. rewrite app_nil_r. destruct rest as [|t r].
@@ -351,7 +353,7 @@ Section Thms.
       + destruct fuel as [|f]; [cbn in Hf; lia|]. cbn [value_until].
         cbn [stops_at] in Hstop. now rewrite Hstop.
     - destruct fuel as [|f]; [cbn in Hf; lia|]. cbn [app value_until].
-      rewrite Hm, Hop. rewrite IH; [|exact Hstop|cbn in Hf; lia].
+      rewrite Hm, Hop, Hnc. rewrite IH; [|exact Hstop|cbn in Hf; lia].
       cbn [rev]. now rewrite <- app_assoc.
     - destruct fuel as [|f]; [cbn in Hf; lia|]. cbn [app value_until].
       rewrite Hm, Hop. rewrite <- app_assoc. cbn [app].
@@ -388,6 +390,16 @@ Section Thms.
   Proof.
     intros He Hs. unfold consume_value_until.
     rewrite (value_until_Expr terms e He _ [] rest Hs (le_n _)). reflexivity.
+  Qed.
+
+  (* C06: a closing bracket at depth 0 of a value that is neither a terminator
+     nor the tolerant '>' is rejected (fix F30) *)
+  Theorem stray_closer_in_value_rejected_lemma terms f acc t r :
+    memN (ty t) terms = false -> is_closer (ty t) = true -> ty t <> GT -> opener_of (ty t) = None ->
+    value_until ty (S f) terms acc (t :: r) = ErrUnexpected (ty t).
+  Proof.
+    intros Hm Hc Hg Ho. cbn [value_until]. rewrite Hm, Ho, Hc.
+    destruct (N.eqb_spec (ty t) GT); [contradiction|reflexivity].
   Qed.
 
   (* C13 corollary: what follows a skipped region is independent of the region *)
